@@ -1619,3 +1619,92 @@ func TestBigItems(t *testing.T) {
 	}
 	P.SetExtra("big_item_cases", n)
 }
+
+// TestHostileTexts: every TEXT slot of a policy and of a payload - statement operator (arity 2, 3 and 4), selector,
+// like pattern, command, principal, argument and metadata key - filled with texts that are not what text usually is:
+// runs of 1..100 UTF-8 continuation bytes, lone lead bytes, overlong and surrogate encodings, a valid prefix followed
+// by such bytes, NULs, 4 KiB of one character. go-ipld-prime does not validate text strings, so a correctly signed token
+// can carry any of these; whatever repeats untrusted text in an error message, trims it or walks it by character meets
+// it here. Through policy.FromIPLD directly and, signed by the issuer, through the token decoders and containers.
+func TestHostileTexts(t *testing.T) {
+	var texts [][]byte
+	for _, n := range []int{1, 2, 3, 4, 7, 8, 15, 16, 31, 32, 33, 34, 63, 64, 65, 100, 255, 256, 4096} {
+		texts = append(texts, bytes.Repeat([]byte{0x80}, n), bytes.Repeat([]byte{0xbf}, n), bytes.Repeat([]byte{0xc3}, n), bytes.Repeat([]byte{0xf4}, n), bytes.Repeat([]byte{0xff}, n),
+			bytes.Repeat([]byte{0x00}, n), append([]byte("=="), bytes.Repeat([]byte{0x80}, n)...), append(bytes.Repeat([]byte{0x80}, n), '=', '='), append([]byte(".a"), bytes.Repeat([]byte{0xa9}, n)...),
+			append(bytes.Repeat([]byte("é"), n), 0xc3), bytes.Repeat([]byte{0xed, 0xa0, 0x80}, n), bytes.Repeat([]byte{0xc0, 0xaf}, n), bytes.Repeat([]byte{0xe2, 0x80}, n))
+	}
+	tx := func(b []byte) val.V { return val.V{K: "strb", X: b} }
+	ok := val.List(val.Str("=="), val.Str(".a"), val.Int(1))
+	n := 0
+	for _, b := range texts {
+		h1 := tx(b)
+		pols := []val.V{
+			val.List(val.List(h1, val.Str(".a"), val.Int(1))),
+			val.List(val.List(h1, val.Str(".a"))),
+			val.List(val.List(h1, val.Str(".a"), val.Int(1), val.Int(2))),
+			val.List(val.List(h1, ok)),
+			val.List(val.List(h1, val.List(ok, ok))),
+			val.List(val.List(val.Str("=="), h1, val.Int(1))),
+			val.List(val.List(val.Str("like"), val.Str(".a"), h1)),
+			val.List(val.List(val.Str("like"), h1, val.Str("*"))),
+			val.List(val.List(val.Str("any"), h1, ok)),
+			val.List(val.List(val.Str("not"), val.List(h1, val.Str(".a"), val.Int(1)))),
+			val.List(val.List(val.Str("and"), val.List(ok, val.List(val.Str("all"), val.Str(".l"), val.List(h1, h1, h1))))),
+			val.List(val.List(val.Str("=="), val.Str(".a"), h1)),
+			val.List(val.List(val.Str("=="), val.Str(".a"), val.Map(val.KV{K: string(b), V: h1}))),
+		}
+		for _, pnode := range pols {
+			pnode := pnode
+			nodeProp.One(t, Case{Target: "policy.FromIPLD", Fam: "hostile-text", Node: &pnode})
+			n++
+			if len(b) > 300 {
+				continue
+			}
+			iss := keys.Principal(0).DID.String()
+			pay := val.Map(val.E("iss", val.Str(iss)), val.E("aud", val.Str(keys.Principal(1).DID.String())), val.E("sub", val.Str(iss)), val.E("cmd", val.Str("/foo")),
+				val.E("pol", pnode), val.E("nonce", val.Bytes(bytes.Repeat([]byte{1}, 12))), val.E("exp", val.Null()))
+			if sealed, ok := signed("dlg", pay); ok {
+				for _, tg := range []string{"token.FromSealed", "delegation.FromSealed", "token.FromDagCbor", "token.FromSealedReader"} {
+					mutatedProp.One(t, Case{Target: tg, Fam: "hostile-text-signed", Bytes: sealed})
+					n++
+				}
+			}
+		}
+		if len(b) > 300 {
+			continue
+		}
+		// the other text slots of a payload
+		iss := keys.Principal(0).DID.String()
+		for slot := 0; slot < 6; slot++ {
+			pay := map[string]val.V{"iss": val.Str(iss), "aud": val.Str(keys.Principal(1).DID.String()), "sub": val.Str(iss), "cmd": val.Str("/foo"),
+				"args": val.Map(), "prf": val.List(), "nonce": val.Bytes(bytes.Repeat([]byte{1}, 12)), "exp": val.Null()}
+			switch slot {
+			case 0:
+				pay["cmd"] = tx(append([]byte("/"), b...))
+			case 1:
+				pay["aud"] = tx(append([]byte("did:key:z"), b...))
+			case 2:
+				pay["iss"] = tx(append([]byte("did:key:"), b...))
+			case 3:
+				pay["args"] = val.Map(val.KV{K: string(b), V: val.Int(1)})
+			case 4:
+				pay["meta"] = val.Map(val.KV{K: string(b), V: h1})
+			default:
+				pay["args"] = val.Map(val.E("a", val.List(h1, val.Map(val.KV{K: string(b), V: h1}))))
+			}
+			pv := val.V{K: "map"}
+			for _, k := range []string{"iss", "aud", "sub", "cmd", "args", "prf", "meta", "nonce", "exp"} {
+				if v, ok := pay[k]; ok {
+					pv.M = append(pv.M, val.KV{K: k, V: v})
+				}
+			}
+			if sealed, ok := signed("inv", pv); ok {
+				for _, tg := range []string{"token.FromSealed", "invocation.FromSealed", "token.FromDagCbor"} {
+					mutatedProp.One(t, Case{Target: tg, Fam: "hostile-text-signed", Bytes: sealed})
+					n++
+				}
+			}
+		}
+	}
+	P.SetExtra("hostile_text_cases", n)
+}
